@@ -353,7 +353,9 @@ func (m *Variant) Encode() ([]byte, error) {
 
 	m.encode(buf, reflect.ValueOf(m.value))
 
-	if m.Has(VariantArrayDimensions) {
+	// Decode ignores the dimensions bit of a scalar value. Do not write
+	// dimensions for it either.
+	if m.Has(VariantArrayValues) && m.Has(VariantArrayDimensions) {
 		buf.WriteInt32(m.arrayDimensionsLength)
 		for i := 0; i < int(m.arrayDimensionsLength); i++ {
 			buf.WriteInt32(m.arrayDimensions[i])
